@@ -400,6 +400,9 @@ impl Ms {
             }
         };
         let mut c = Chain::new(h.rng.range(10, 5000), h.rng.range(1_600_000_000, 1_800_000_000));
+        let jitter = h.rng.below(1_000_000_000);
+        let t0 = c.time_ns();
+        c.set_time_ns(t0 + jitter, 0);
         let owner = c.owner.to_string();
         let sink = c.new_sink();
         let gadmin = mk_addr("group-admin");
